@@ -245,6 +245,24 @@ func RunRapid(t *rapid.T, kind string, cfg Cfg, g GenCfg, after func(e *Engine, 
 		h.Ops = append(h.Ops, op)
 		fail(e.Step(op))
 		stats.Class("history-starts-on-a-chain-of-30-nested-routes-then-truncate")
+	} else if gen.Chance(t, 1, 12, "infixfamily") {
+		// or on an infix catch-all route that is the prefix of two others: one transaction first registers a route below it
+		// (which copies the node the look-ups resume from after the catch-all) and then replaces the route itself, once or twice
+		m := e.Cfg.Methods[0]
+		for _, p := range []string{"/i/*{c}/m", "/i/*{c}/m/x", "/i/{p}/n"} {
+			op := Op{Kind: "handle", Method: m, Pattern: p}
+			h.Ops = append(h.Ops, op)
+			fail(e.Step(op))
+		}
+		op := Op{Kind: "updates", End: "ok", Body: []Op{
+			{Kind: "handle", Method: m, Pattern: "/i/*{c}/m/y"},
+			{Kind: "update", Method: m, Pattern: "/i/*{c}/m"},
+			{Kind: "update", Method: m, Pattern: "/i/*{c}/m/x"},
+			{Kind: "update", Method: m, Pattern: "/i/*{c}/m"},
+		}}
+		h.Ops = append(h.Ops, op)
+		fail(e.Step(op))
+		stats.Class("history-starts-on-an-infix-catch-all-family-updated-inside-one-transaction")
 	}
 	t.Repeat(map[string]func(*rapid.T){
 		"step": func(t *rapid.T) {
